@@ -47,6 +47,9 @@ def cases(tier, seed):
     for i in range(n * 4):
         out.append({"id": "spheres-%d" % i, "kind": "spheres", "seed": [seed, "spheres", i], "nmem": 1 + i % 8,
                     "flavor": ["random", "touching", "nested", "near", "layered", "concentric"][(i // 8) % 6], "warn": bool((i // 3) % 2)})
+    # points exactly on the surface (representable: Pythagorean quadruples around integer centres): strictly outside
+    for i in range(max(4, n // 4)):
+        out.append({"id": "exact-%d" % i, "kind": "exact", "seed": [seed, "exact", i]})
     out.append({"id": "reject-0", "kind": "reject"})
     return out
 
@@ -194,6 +197,37 @@ def _run_csg(case):
     flags["translated_bounds"] = _bounds_ok(ct.bounds, Pt[expt], 0.0)
     flags["original_not_moved"] = bool(np.array_equal(np.asarray(c.contains(P)), exp))
     return {"flags": flags, "n_in": int(exp.sum()), "n_out": int((~exp).sum()), "resid": {}}
+
+
+QUADS = [(1, 2, 2, 3), (2, 3, 6, 7), (1, 4, 8, 9), (4, 4, 7, 9), (2, 6, 9, 11), (6, 6, 7, 11), (3, 4, 12, 13), (2, 10, 11, 15), (0, 3, 4, 5), (0, 5, 12, 13)]
+
+
+def _run_exact(case):
+    """|p - c|^2 == r^2 exactly in floating point: the indicator is the strict inequality, so the point is outside;
+    the next representable radius above puts it inside."""
+    from holopy.scattering.scatterer import Sphere, Ellipsoid, Union
+    rng = rng_for(*case["seed"])
+    flags = {}
+    n_in = n_out = 0
+    for a, b, c_, r in QUADS:
+        sc = float(2.0 ** int(rng.integers(-3, 4)))        # power-of-two scaling keeps everything exact
+        cen = np.array([float(rng.integers(-5, 6)), float(rng.integers(-5, 6)), float(rng.integers(-5, 6))]) * sc
+        perm = rng.permutation(3)
+        signs = rng.choice([-1.0, 1.0], 3)
+        v = np.array([a, b, c_], dtype=float)[perm] * signs * sc
+        P = np.array([cen + v, cen - v])
+        s = Sphere(n=1.5, r=r * sc, center=tuple(cen))
+        on = s.contains(P)
+        s_big = Sphere(n=1.5, r=float(np.nextafter(r * sc, np.inf)), center=tuple(cen))
+        s_small = Sphere(n=1.5, r=float(np.nextafter(r * sc, 0)), center=tuple(cen))
+        flags["surface_point_outside@%d" % r] = bool(not on.any())
+        flags["just_larger_contains@%d" % r] = bool(s_big.contains(P).all())
+        flags["just_smaller_excludes@%d" % r] = bool(not s_small.contains(P).any())
+        lay = Sphere(n=(1.5, 1.4), r=(r * sc, 2 * r * sc), center=tuple(cen))
+        flags["layer_boundary_belongs_to_outer@%d" % r] = bool(np.array_equal(lay.in_domain(P), [2, 2]))
+        # (no exact-surface claim for Ellipsoid: its test divides by the semi-axes first, which rounds)
+        n_out += 2; n_in += 2
+    return {"flags": flags, "resid": {}, "n_in": n_in, "n_out": n_out}
 
 
 def _lens_volume(r1, r2, d):
